@@ -38,13 +38,13 @@ def encode : Msg → List UInt8
 
 /-- a message as a conforming client can send it in RFB_NORMAL that the server keeps the
 connection open for (in the harness configuration) -/
-def Benign (cfg : Cfg) : Msg → Prop
+def Benign (_cfg : Cfg) : Msg → Prop
   | .key _ k => k < 4294967296
   | .pointer m x y => m < 256 ∧ x < 65536 ∧ y < 65536
   | .cutText t => t.length ≤ 1048576
   | .fbUpdateRequest b => b.length = 9
   | .setEncodings encs => encs.length < 65536 ∧ ∀ e ∈ encs, e < 4294967296
-  | .setScale _ s => 0 < s ∧ s < 256 ∧ (cfg.height / s = 0 ∨ 0 < cfg.width / s)
+  | .setScale _ s => 0 < s ∧ s < 256
   | .setPixelFormat b => b.length = 19 ∧
       ((byteAt b 3).toNat = 8 ∨ ((byteAt b 3).toNat = 16 ∨ (byteAt b 3).toNat = 32) ∧ (byteAt b 6).toNat ≠ 0)
   | .setServerInput b => b.length = 3
